@@ -947,6 +947,28 @@ def main():
                 same = False
             out.append([bits, es, en, bool(same)])
         print(json.dumps(out))
+    elif cmd == 'tsprobe':
+        # what the translator needs to know about Timestamp / TimestampAdapter, obtained by evaluating the working tree:
+        # the sentinel, the decode factor (unpack of (0 s, 1 ns)), and pack/unpack on a probe set that pins the shape
+        from fusion_engine_client.messages.timestamp import TimestampConstruct
+        def dec(sec, ns):
+            t = Timestamp(); t.unpack(struct.pack('<II', sec, ns), 0)
+            t2 = TimestampConstruct.parse(struct.pack('<II', sec, ns))
+            a = None if t.seconds != t.seconds else struct.unpack('<Q', struct.pack('<d', t.seconds))[0]
+            b = None if t2.seconds != t2.seconds else struct.unpack('<Q', struct.pack('<d', t2.seconds))[0]
+            return a, b
+        def enc(bits):
+            x = float('nan') if bits is None else struct.unpack('<d', struct.pack('<Q', bits))[0]
+            out = []
+            for f in (lambda: struct.unpack('<II', bytes(Timestamp(x).pack(return_buffer=True))), lambda: struct.unpack('<II', TimestampConstruct.build(Timestamp(x)))):
+                try:
+                    out.append(list(f()))
+                except Exception as e:
+                    out.append(type(e).__name__)
+            return out
+        req = json.load(sys.stdin)
+        print(json.dumps({'invalid_attr': int(getattr(Timestamp, '_INVALID', -1)), 'size': int(Timestamp.calcsize()),
+                          'dec': [dec(a, b) for a, b in req['dec']], 'enc': [enc(x) for x in req['enc']]}))
     elif cmd == 'one':
         key, hx = sys.argv[2], sys.argv[3]
         cls, _ = class_table()[key]
